@@ -1973,6 +1973,10 @@ void BW_MidiSequencer::handleEvent(size_t track, const BW_MidiSequencer::MidiEve
                     return;
                 }
 
+                // Unmatched "for" controllers in a repeating song must not nest without an end
+                if(m_loop.stackLevel >= 127)
+                    return;
+
                 char x = data[0];
                 size_t slevel = static_cast<size_t>(m_loop.stackLevel + 1);
                 while(slevel >= m_loop.stack.size())
